@@ -7,8 +7,33 @@ import vp
 def run(tier):
     chk = vp.Check("C20", tier)
     wd = vp.workdir("c20")
-    drv = vp.build("cast_driver", ["cast_driver.cpp"], [])
-    events = []
+    # compile-time side: (tainted form, opaque form) program pairs, verdicts from the compiler
+    from concurrent.futures import ThreadPoolExecutor
+    src = os.path.join(vp.HARNESS, "c20_forms.cpp")
+    text = open(src).read()
+    forms = {}
+    import re
+    for m in re.finditer(r"#(?:el)?if FORM == (\d+)\n((?:  [^\n]*\n)+)", text):
+        forms[int(m.group(1))] = " ".join(l.strip() for l in m.group(2).splitlines())
+
+    def verdict(f):
+        p = vp.run([vp.CXX] + vp.BASE_FLAGS + ["-fsyntax-only", "-DFORM=%d" % f, src], timeout=300)
+        err = [l for l in p.stderr.splitlines() if " error: " in l]
+        return f, ("accept" if p.returncode == 0 else "reject"), (err[0][-200:] if err else "")
+    with ThreadPoolExecutor(max_workers=12) as ex:
+        verdicts = {f: (v, why) for f, v, why in ex.map(verdict, sorted(forms))}
+    if len(forms) < 24 or all(v == "reject" for v, _ in verdicts.values()):
+        raise vp.Broken("c20_forms.cpp: no form compiles: %s" % verdicts.get(0, ("", ""))[1])
+    pair_events = []
+    for k in range(len(forms) // 2):
+        pair_events.append({"e": "formpair", "pair": k, "tainted_form": forms[2 * k], "opaque_form": forms[2 * k + 1],
+                            "tainted": verdicts[2 * k][0], "opaque": verdicts[2 * k + 1][0],
+                            "why": verdicts[2 * k][1] or verdicts[2 * k + 1][1]})
+    dflags = []
+    if any(verdicts[f][0] == "reject" for f in (3, 5)) and verdicts[1][0] == "accept":
+        dflags = ["-DC20_NO_OPAQUE_PTR_INVOKE"]     # keep observing the rest of the run-time behaviour
+    drv = vp.build("cast_driver", ["cast_driver.cpp"], dflags)
+    events = list(pair_events)
     tpath = os.path.join(wd, "cast.ndjson")
     seeds = [vp.seed()] + ([vp.seed() + k for k in range(1, 8)] if tier == "thorough" else [])
     allp = os.path.join(wd, "all.ndjson")
@@ -29,10 +54,12 @@ def run(tier):
     combos = set((e["e"], e.get("cast", e.get("ty", e.get("what"))), e.get("from"), e.get("to"), e.get("src", e.get("form")))
                  for e in events)
     chk.count(evaluations=len(events), distinct=len(combos), traces=len(seeds))
-    chk.sample(events[10])
+    chk.sample(events[len(pair_events) + 10])
+    chk.sample(pair_events[2])
+    chk.cov["form_pairs"] = len(pair_events)
     chk.sample([e for e in events if e["e"] == "cast"][5])
     chk.cov["exhaustive"] = False
-    chk.cov["scope"] = "opaque round trips for 15 primitive/pointer types, a registered struct and an array; opaque vs tainted " \
+    chk.cov["scope"] = "12 (tainted form, opaque form) program pairs judged by compile verdict; opaque round trips for 15 primitive/pointer types, a registered struct and an array; opaque vs tainted " \
                        "values as callback results and invocation arguments (incl. values that must abort); 17 static, 9 " \
                        "reinterpret and 5 const cast pairs on tainted and tainted_volatile sources with boundary/random values " \
                        "and null/first/interior/last pointers"
